@@ -22,6 +22,7 @@ func init() {
 			"Q2 quoteString copies a byte unescaped only if it is >= 0x20 and neither a double quote nor a backslash, and every escape form it emits is accepted by the lexer's string rule (regexp constant from tokenizer.go) and has an arm in unquoteBytes, " +
 			"Q5 every path through CallStm.format looks at each keyword modifier flag (Local, Preflight, Volatile) or crosses Modifiers == nil (must-pass-through with predicate helpers expanded): a path that does not prints the same text with and without the keyword, " +
 			"Q6 the same for a frozen table of 56 content-carrying AST fields and their node's format method. " +
+			"Q7 while the compiler appends the bindings generated for a wildcard to the same list, every printing loop of BindStms.format leaves on Id == \"*\". " +
 			"NOT decided: idempotence, comment placement, number printing, topological order, include-expanded rendering.",
 		Assumptions: commonAssumptions,
 	}
